@@ -125,6 +125,11 @@ class _CGMYLevyMeasure(LevyMeasure):
         return 0
 
     def integrate(self, a: float, b: float) -> float:
+        if a < 0 < b and (a == -np.inf or b == np.inf):
+            if self.parameters.y >= 0:
+                return np.inf
+            return self.integrate(a, 0.0) + self.integrate(0.0, b)
+
         if b == np.inf:
             if a == np.inf:
                 return 0.0
